@@ -93,58 +93,7 @@ func legC10(e *Engine) []Violation {
 	}
 	vs = append(vs, pureCorrespondence(e)...)
 	vs = append(vs, bigChunks(e)...)
-	// golden corpus
-	files, _ := filepath.Glob(filepath.Join(goldenDir(e), "*.case"))
-	sort.Strings(files)
-	for _, cf := range files {
-		f, err := os.Open(cf)
-		if err != nil {
-			continue
-		}
-		cs, err := ParseCases(f)
-		f.Close()
-		if err != nil || len(cs) != 1 {
-			vs = append(vs, Violation{Prop: e.prop, Kind: "framework", Detail: "golden case unreadable: " + cf})
-			continue
-		}
-		c := cs[0]
-		img, err := os.ReadFile(strings.TrimSuffix(cf, ".case") + ".ice")
-		if err != nil {
-			vs = append(vs, Violation{Prop: e.prop, Kind: "framework", Detail: "golden file missing for " + cf})
-			continue
-		}
-		last := len(c.Segs) - 1
-		w := &World{c: c, segs: make([]*RSeg, len(c.Segs))}
-		for j := range w.segs {
-			w.segs[j] = &RSeg{err: "not-in-golden"}
-		}
-		rs := &RSeg{isMerge: c.Segs[last].Kind == "merge", wroteOK: true}
-		rs.err = guard(opTimeout, func() string {
-			s, err := curAPI.Load(segment.NewDataBytes(img))
-			if err != nil {
-				return "loaderr"
-			}
-			rs.seg, rs.obs = s, s
-			return ""
-		})
-		w.segs[last] = rs
-		var lines []string
-		for i, q := range c.Queries {
-			lines = append(lines, fmt.Sprintf("r %s %d %s", c.ID, i, w.Exec(q, nil)))
-		}
-		sp, err := e.runModel("spec", []*Case{c})
-		if err != nil {
-			continue
-		}
-		e.rep.Queries += len(lines)
-		e.count("golden-files", 1)
-		if d := firstDiff(lines, sp[c.ID]); d >= 0 {
-			vs = append(vs, Violation{Prop: e.prop, CaseID: c.ID, Kind: "spec-mismatch", Case: c,
-				Detail: fmt.Sprintf("golden file %s (written by the reference) read by the current code: query %d `%s`\n  impl: %s\n  spec: %s",
-					filepath.Base(cf), d, queryAt(c, d), lines[d], sp[c.ID][d]),
-				Extra: "# golden: " + strings.TrimSuffix(cf, ".case") + ".ice\n"})
-		}
-	}
+	vs = append(vs, goldenPass(e, nil)...)
 	return vs
 }
 
@@ -327,6 +276,75 @@ func bigChunks(e *Engine) []Violation {
 			qc := &Case{ID: cb.c.ID, Queries: []Query{{"(big-chunk case: 300 documents, 4000-byte doc-value terms, one 1.5 MiB stored value; regenerate with seed)"}, cb.c.Queries[d]}}
 			vs = append(vs, Violation{Prop: e.prop, CaseID: cb.c.ID, Kind: "spec-mismatch", Case: qc,
 				Detail: fmt.Sprintf("%s, chunks above 1 MiB: `%s`\n  reference->reference: %s\n  this direction:       %s", dir.name, strings.Join(cb.c.Queries[d], " "), short(oracle[d]), short(got[d]))})
+		}
+	}
+	return vs
+}
+
+// goldenPass: the committed corpus of reference-written files (ref/golden) loaded by the current
+// code; the queries of each case (all of them, or those `keep` selects) must answer as the Lean
+// specification of the case.
+func goldenPass(e *Engine, keep func(Query) bool) []Violation {
+	var vs []Violation
+	// golden corpus
+	files, _ := filepath.Glob(filepath.Join(goldenDir(e), "*.case"))
+	sort.Strings(files)
+	for _, cf := range files {
+		f, err := os.Open(cf)
+		if err != nil {
+			continue
+		}
+		cs, err := ParseCases(f)
+		f.Close()
+		if err != nil || len(cs) != 1 {
+			vs = append(vs, Violation{Prop: e.prop, Kind: "framework", Detail: "golden case unreadable: " + cf})
+			continue
+		}
+		c := cs[0]
+		if keep != nil {
+			var qs []Query
+			for _, q := range c.Queries {
+				if keep(q) {
+					qs = append(qs, q)
+				}
+			}
+			c.Queries = qs
+		}
+		img, err := os.ReadFile(strings.TrimSuffix(cf, ".case") + ".ice")
+		if err != nil {
+			vs = append(vs, Violation{Prop: e.prop, Kind: "framework", Detail: "golden file missing for " + cf})
+			continue
+		}
+		last := len(c.Segs) - 1
+		w := &World{c: c, segs: make([]*RSeg, len(c.Segs))}
+		for j := range w.segs {
+			w.segs[j] = &RSeg{err: "not-in-golden"}
+		}
+		rs := &RSeg{isMerge: c.Segs[last].Kind == "merge", wroteOK: true}
+		rs.err = guard(opTimeout, func() string {
+			s, err := curAPI.Load(segment.NewDataBytes(img))
+			if err != nil {
+				return "loaderr"
+			}
+			rs.seg, rs.obs = s, s
+			return ""
+		})
+		w.segs[last] = rs
+		var lines []string
+		for i, q := range c.Queries {
+			lines = append(lines, fmt.Sprintf("r %s %d %s", c.ID, i, w.Exec(q, nil)))
+		}
+		sp, err := e.runModel("spec", []*Case{c})
+		if err != nil {
+			continue
+		}
+		e.rep.Queries += len(lines)
+		e.count("golden-files", 1)
+		if d := firstDiff(lines, sp[c.ID]); d >= 0 {
+			vs = append(vs, Violation{Prop: e.prop, CaseID: c.ID, Kind: "spec-mismatch", Case: c,
+				Detail: fmt.Sprintf("golden file %s (written by the reference) read by the current code: query %d `%s`\n  impl: %s\n  spec: %s",
+					filepath.Base(cf), d, queryAt(c, d), lines[d], sp[c.ID][d]),
+				Extra: "# golden: " + strings.TrimSuffix(cf, ".case") + ".ice\n"})
 		}
 	}
 	return vs
